@@ -1059,6 +1059,49 @@ func c01LimitSources(c *Ctx, f *Fn, limit, lnk *X, key string) {
 					_, scopedUnset = c.Guarded(in, Bin("==", Field("depthLimit", Any()), Const("0")), true)
 				}
 				c.Check(g1 && g2 && scopedUnset, "C01.f-limit-choice", k, in.Pos(), "first-sync depth used only with no stop link, when configured, and when no scoped limit is given", "first-sync depth applied outside (no stop link ∧ configured ∧ no scoped limit)")
+			case arg.Op == "call" && strings.HasPrefix(arg.Name, "cmp.Or[") && len(arg.Args) == 1:
+				// cmp.Or(scoped, firstSync): the first non-zero of the two — the scoped limit has priority, the
+				// first-sync depth enters only where there is no stop link (it is zero otherwise), and the limit is
+				// taken from the result only when that is non-zero
+				es := variadicElems(c, arg.Args[0])
+				okOr := len(es) == 2
+				if okOr {
+					e0 := strip(es[0])
+					okOr = e0 != nil && e0.Op == "field" && e0.Name == "depthLimit"
+					var srcs2 []*X
+					flatten(es[1], &srcs2, 0)
+					nFirst := 0
+					for _, s2 := range srcs2 {
+						s2 = strip(s2)
+						switch {
+						case s2 != nil && s2.Op == "const" && s2.Name == "0":
+						case s2 != nil && s2.Op == "field" && s2.Name == "firstSyncDepth":
+							nFirst++
+							// chosen only with no stop link: the phi edge it comes in on lies under lnk == nil
+							if ph, isPhi := strip(es[1]).V.(*ssa.Phi); isPhi {
+								onNoLink := false
+								for i, e := range ph.Edges {
+									if ex := strip(c.E(e)); ex != nil && ex.Op == "field" && ex.Name == "firstSyncDepth" {
+										pred := ph.Block().Preds[i]
+										for _, fct := range append(c.FactsAt(pred), edgeFact(c, pred, ph.Block())...) {
+											if _, m := Match(EqNil(Is(lnk)), fct.Cond); m && fct.Val {
+												onNoLink = true
+											}
+										}
+									}
+								}
+								okOr = okOr && onNoLink
+							} else {
+								okOr = false
+							}
+						default:
+							okOr = false
+						}
+					}
+					okOr = okOr && nFirst == 1
+				}
+				_, nonZero := c.Guarded(in, Bin("==", Is(arg), Const("0")), false)
+				c.Check(okOr && nonZero, "C01.f-limit-choice", k, in.Pos(), "the first non-zero of (scoped limit, first-sync depth where there is no stop link), used only when non-zero", "depth limit derived from an unexpected value")
 			default:
 				c.Bad("C01.f-limit-choice", k, in.Pos(), "depth limit derived from an unexpected value")
 			}
